@@ -125,7 +125,7 @@ def obligations():
             n = '%s.%s' % (qn, sh)
             prop0 = q['props'][0]
             pre = '  TK m; { static const int W0[] = {SHAPE_W}; int aa[4]; unwitness(W0, &m, aa); }\n  __CPROVER_assert(wf(&m), "%s.%s.shape_built_by_the_real_construction_code_is_well_formed");' % (prop0, n)
-            post = q['post'](n) + [A('same_state(&o, &m)', 'query leaves the whole mesh state unchanged (write frame: C20)', n, prop0), A('ovm_exc == 0', 'no_exception', n, prop0)]
+            post = q['post'](n) + [A('same_state(&o, &m) && TopologyKernel__seq(&o, &m)', 'query leaves the whole mesh state unchanged (write frame: C20)', n, prop0), A('ovm_exc == 0', 'no_exception', n, prop0)]
             mh = MeshHarness(args=q['args'], call=q['call'], post='\n'.join(post), op=q['op'], pre=pre,
                              snap='  witness(&o, %s);\n  COVER(1, "reachable");' % ', '.join(wargs(q['args'])),
                              list_arg='ovm_list' if q.get('list_arg') else None)
